@@ -321,7 +321,9 @@ func aggregateRows(selectList sql.SelectList, groupBy []sql.ColumnReference, row
 		var key string
 		for _, groupByCol := range groupBy {
 			idx := colToIdx[groupByCol]
-			key += fmt.Sprintf("%v", row.Vals[idx])
+			// quote and delimit each value so that distinct combinations
+			// never produce the same key
+			key += fmt.Sprintf("%#v,", row.Vals[idx])
 		}
 		return key
 	}
